@@ -32,7 +32,7 @@ RULE = ("seeded generator over kinds {plot_diagrams, bottleneck_matching, wasser
         "only infinite deaths, empty diagram among others, all empty, constant (zero range), points below the "
         "diagonal, scales 2^-10..2^10, random doubles} x options {plot_only (incl. [] and out of range), "
         "lifetime, diagonal, legend, labels list / single string, xy_range, title} x input dtype {float64, float32, "
-        "int64, nested list} x {the same array object at two positions of the list} x {two calls in a row on the same "
+        "int64, int32, nested list; matching plots: integer-dtype diagrams with odd birth+death matched to the diagonal} x {the same array object at two positions of the list} x {two calls in a row on the same "
         "array objects, both judged on the caller's ORIGINAL data} x axes {other axes current, "
         "given axes current, ax=None}; coordinates on a dyadic grid exact in float32 (exact family) or random "
         "doubles (tolerance family); a case is non-trivial when at least two distinct finite points, an "
@@ -131,7 +131,7 @@ def _gen_pd(rng):
     if cls == "lifetime":
         c["lifetime"] = True
     # input dtype class; the same array OBJECT at two positions; two calls in a row on the same objects
-    c["dtype"] = rng.choice(["f64"] * 5 + ["f32"] * 3 + ["i64", "list"])
+    c["dtype"] = rng.choice(["f64"] * 5 + ["f32"] * 3 + ["i64", "i32", "list"])
     if cls in ("alias", "twice"):
         c["dtype"] = rng.choice(["f32", "f32", "f32", "f64"])
         c["lifetime"] = rng.random() < 0.6
@@ -169,7 +169,7 @@ def _gen_pd(rng):
 
 def _gen_match(rng, kind):
     cls = rng.choice(["generic", "generic", "generic", "one_empty", "other_empty", "both_empty", "diag_heavy",
-                      "doubles", "ties", "scale", "identical", "perturbed"])
+                      "doubles", "ties", "scale", "identical", "perturbed", "int_odd", "int_odd", "int_mixed"])
     scale = rng.choice([2.0 ** -8, 2.0 ** 8]) if cls == "scale" else 1.0
     exact = cls != "doubles"
     n1, n2 = rng.randint(1, 5), rng.randint(1, 5)
@@ -193,6 +193,19 @@ def _gen_match(rng, kind):
     if cls == "perturbed":          # cross pairings with small positive costs
         d2 = [[p[0] + rng.randint(-2, 2) / 16.0, p[1] + rng.randint(-2, 2) / 16.0] for p in d1]
     extra = {"dtype": rng.choice(["f64", "f64", "f32"])}
+    if cls == "int_odd":
+        # integer-dtype diagrams, odd birth+death, far apart but close to the diagonal: every point goes to the
+        # diagonal and its foot ((b+d)/2, (b+d)/2) is a half-integer
+        d1 = [[float(6 * k + o), float(6 * k + o + 1)] for k, o in ((k, rng.randint(0, 1)) for k in range(n1))]
+        d2 = [[float(6 * k + 3), float(6 * k + 3 + rng.choice([1, 3]))] for k in range(n2)]
+        extra["dtype"] = rng.choice(["i64", "i32"])
+    if cls == "int_mixed":
+        # integer coordinates, a mix of cross pairings and diagonal pairings with odd and even sums
+        d1 = [[float(b), float(b + rng.randint(1, 9))] for b in (rng.randint(-5, 20) for _ in range(n1))]
+        d2 = [[float(b), float(b + rng.randint(1, 9))] for b in (rng.randint(-5, 20) for _ in range(n2))]
+        extra["dtype"] = rng.choice(["i64", "i32"])
+    if cls == "ties" and rng.random() < 0.5:
+        extra["dtype"] = rng.choice(["i64", "i32"])
     if cls == "identical" and rng.random() < 0.5:
         extra["same_object"] = True     # dgm2 IS dgm1
     return {**extra, "kind": kind, "cls": kind + "/" + cls, "d1": d1, "d2": d2, "labels": rng.choice([["dgm1", "dgm2"], ["dgmA", "dgmB"]]),
@@ -279,6 +292,9 @@ def corpus():
         m(dgms=[[[1, 3], [2, 7]]], dtype="f32", lifetime=True, second={"lifetime": True}),
         m(dgms=[[[1, 3], [2, "inf"]]], dtype="f32", second={"lifetime": False}),
         m(dgms=[[[1, 3], [2, "inf"]]], dtype="f32", single=True, lifetime=True, second={"lifetime": False}),
+        # integer-dtype diagrams: the foot of (10, 11) is (10.5, 10.5), not a truncated integer
+        {"kind": "bn", "d1": [[10, 11]], "d2": [[20, 23]], "labels": ["dgm1", "dgm2"], "axes": "other", "dtype": "i64"},
+        {"kind": "ws", "d1": [[10, 11], [0, 3]], "d2": [[20, 21]], "labels": ["dgm1", "dgm2"], "axes": "other", "dtype": "i32"},
     ] + _corpus_files()
 
 
@@ -290,8 +306,9 @@ def _f(x):
 
 def _arr(np, d, as_int=False, dtype="f64"):
     a = np.array([[_f(b), _f(e)] for b, e in d], dtype=float).reshape(-1, 2)
-    if (as_int or dtype == "i64") and a.size and np.all(np.isfinite(a)) and np.all(a == np.round(a)):
-        return a.astype(np.int64)       # integer-typed diagrams are cast by the code like any other
+    if (as_int or dtype in ("i64", "i32")) and np.all(np.isfinite(a)) and np.all(a == np.round(a)):
+        # integer-typed diagrams are cast by the code like any other (feet of odd birth+death are half-integers)
+        return a.astype(np.int32 if dtype == "i32" else np.int64)
     if dtype == "f32":
         return a.astype(np.float32)     # the code's own working type: a missing copy would edit the caller's array
     if dtype == "list":
